@@ -195,6 +195,8 @@ class PairSim(Sim):
             k = len(self.sends[side])
             msg = app_message(self.cfg["seed"], side, k, self.cfg["payload_law"], self.cfg["charset"])
             ent = dict(k=k, mid=f"{side}-{k}", status="pending", fp=body_fingerprint(msg, "sent"))
+            # a value with a lone surrogate has no byte representation: such a message can only be refused
+            ent["unrepresentable"] = any(0xD800 <= ord(c) <= 0xDFFF for t in msg.tags for c in str(msg.tags[t]))
             ent["ev_start"] = self.rec("send_call", side, k)
             self.sends[side].append(ent)
             self.inprogress += 1
